@@ -12,8 +12,8 @@
 (* today and is rejected: known finding F-C17-1..3);                        *)
 (* per-instance-type templates (type A: one exclusive device, type B: two,  *)
 (* each plus a shared template device); NodeClaims superposed over types    *)
-(* {A, B}; claims of six kinds (one / two exclusive in-cluster devices, a   *)
-(* share of 2 or 3 of the shared device, a template device, a share of the  *)
+(* {A, B}; claims of seven kinds (one / two exclusive in-cluster devices, a *)
+(* share of 1, 2 or 3 of the shared device, a template device, a share of the  *)
 (* shared template device).                                                  *)
 (*                                                                         *)
 (* Mechanism = the AllocationTracker as the code keeps it: exclusive        *)
@@ -35,7 +35,7 @@ EXTENDS DRAGuards, Json
 CONSTANTS
     NCs,          \* NodeClaim ids, e.g. {"N1", "N2"}
     NClaims,      \* number of claims
-    Kinds,        \* claim kinds drawn from {"net", "net2", "shm2", "shm3", "gpu", "tshm"}
+    Kinds,        \* claim kinds drawn from {"net", "net2", "shm1", "shm2", "shm3", "gpu", "tshm"}
     Pres,         \* pre-allocation variants (subset of 0..5, see PreClaim): none / n0 or a share of m0 held by claims that stay or migrate
     Slots,        \* the in-cluster pool's counter is drawn from this set (each exclusive device consumes 1; 0 = no counter)
     W_OtherNC,    \* TRUE: a device in flight for ANOTHER NodeClaim is taken                       (FALSE = mutation)
@@ -79,16 +79,16 @@ World(kinds, pre, slots) ==
                      [type |-> "B", driver |-> "tshm", pool |-> "tp", slots |-> 0, devices |-> <<Dev("t0", TRUE, 4, 0)>>]>>,
      claims |-> [i \in 1..NClaims |-> Claim(i, kinds[i])] \o PreClaim(pre)]
 \* claims are interchangeable (every allocation order is explored anyway): kind MULTISETS, as non-decreasing sequences
-KOrd == <<"net", "net2", "shm2", "shm3", "gpu", "tshm">>
+KOrd == <<"net", "net2", "shm1", "shm2", "shm3", "gpu", "tshm">>
 KIdx(k) == CHOOSE i \in DOMAIN KOrd : KOrd[i] = k
 KindSeqs == {s \in [1..NClaims -> Kinds] : \A i \in 1..(NClaims - 1) : KIdx(s[i]) <= KIdx(s[i + 1])}
 
 \* what a kind asks for: candidate device keys (in-cluster or template of type t), how many, consumed share
-KDriver(kind) == CASE kind \in {"net", "net2"} -> "net" [] kind \in {"shm2", "shm3"} -> "shm" [] kind = "tshm" -> "tshm" [] OTHER -> "gpu"
+KDriver(kind) == CASE kind \in {"net", "net2"} -> "net" [] kind \in {"shm1", "shm2", "shm3"} -> "shm" [] kind = "tshm" -> "tshm" [] OTHER -> "gpu"
 KCount(kind) == IF kind = "net2" THEN 2 ELSE 1
-KShare(kind) == CASE kind = "shm2" -> 2 [] kind = "shm3" -> 3 [] kind = "tshm" -> 3 [] OTHER -> 0
+KShare(kind) == CASE kind = "shm1" -> 1 [] kind = "shm2" -> 2 [] kind = "shm3" -> 3 [] kind = "tshm" -> 3 [] OTHER -> 0
 KTemplate(kind) == kind \in {"gpu", "tshm"}
-KMulti(kind) == kind \in {"shm2", "shm3", "tshm"}
+KMulti(kind) == kind \in {"shm1", "shm2", "shm3", "tshm"}
 Cands(kind, t) ==
     IF KTemplate(kind) THEN {k \in TplDevKeys(dra, t) : k[1] = KDriver(kind)}
     ELSE {k \in InDevKeys(dra) : k[1] = KDriver(kind)}
